@@ -21,13 +21,18 @@ PATHS = ['/', '/a', '/a/', '/a//', '/a/1', '/a/b', '/a/b/', '/a/x/c', '/b', '/b/
 REQ_METHODS = ['GET', 'GET', 'HEAD', 'POST', 'PUT', 'get', 'FOO', 'DELETE', 'post']
 METHOD_SETS = [None, None, ['GET'], ['POST'], ['get', 'put'], ['POST', 'DELETE'], ['HEAD'], [], ['GET', 'POST']]
 BEHAVIOURS = ['ok', 'ok', 'ok', 'ctx', 'nonresp', 'none', 'raise404nb', 'ret403nb', 'raise409', 'ret503',
-              'raise500nb', 'boom', 'weird', 'reroute', 'ret404nb', 'ret503_rendered', 'ret403nb_rendered', 'boombraces', 'raise400braces']
+              'raise500nb', 'boom', 'weird', 'reroute', 'ret404nb', 'ret503_rendered', 'ret403nb_rendered', 'boombraces', 'raise400braces',
+              'ret403nb_shared', 'raise404nb_shared', 'boomtype']
 OUT = {'ok': ['resp', 'ok'], 'ctx': ['resp', 'ok'], 'nonresp': 'nonresp', 'none': 'nonresp',
        'raise404nb': ['http', 404, False], 'ret404nb': ['http', 404, False], 'ret403nb': ['http', 403, False],
        'raise409': ['http', 409, True], 'ret503': ['http', 503, True], 'raise500nb': ['http', 500, False],
        'boom': ['raise', 'ValueError'], 'weird': ['raise', 'RuntimeError'], 'reroute': 'reroute',
        # messages that are format-string syntax: '{0}', '{name!r}', a lone '}' (dict reprs, JSON snippets, templates)
        'boombraces': ['raise', 'KeyError'], 'raise400braces': ['http', 400, True],
+       # ONE prepared error instance handed out on every request (a module-level constant of the application)
+       'ret403nb_shared': ['http', 403, False], 'raise404nb_shared': ['http', 404, False],
+       # application code raising TypeError itself (a re-raising handler hands the server that very exception)
+       'boomtype': ['raise', 'TypeError'],
        # an HTTPException RETURNED by the endpoint of a route that has a render function: its own status, not a rendering of it
        'ret503_rendered': ['http', 503, True], 'ret403nb_rendered': ['http', 403, False]}
 HANDLERS = {'default': ('default', 'adapt'), 'reraise': ('reraise', 'adapt'), 'contextual': ('default', 'adapt'),
@@ -35,6 +40,9 @@ HANDLERS = {'default': ('default', 'adapt'), 'reraise': ('reraise', 'adapt'), 'c
             'broken': ('default', 'raises'), 'other': ('default', ['other', 'APPOTHER']),
             'contextual_reraise': ('default', 'adapt')}
 ACCEPTS = [None, 'text/html', 'application/json', '*/*', 'application/xml;q=0.9, text/plain', 'image/png', 'garbage;;q=x']
+
+
+RAISED = []          # exception objects raised by application code of the lab, in order
 
 
 def build(case):
@@ -117,6 +125,21 @@ def build(case):
                     raise KeyError('no repr')
             def f():
                 raise RuntimeError(u'é中' * 3000, Unprintable() if k % 2 else 'x')
+            return f, None
+        if beh == 'ret403nb_shared':
+            one = E.Forbidden(is_breaking=False)
+            return (lambda: one), None
+        if beh == 'raise404nb_shared':
+            one = E.NotFound(is_breaking=False)
+
+            def f():
+                raise one
+            return f, None
+        if beh == 'boomtype':
+            def f():
+                exc = TypeError("unsupported operand type(s) for +: 'int' and 'str' <%d>" % k)
+                RAISED.append(exc)
+                raise exc
             return f, None
         if beh == 'boombraces':
             def f():
@@ -222,7 +245,11 @@ def impl(case):
             except Exception:
                 bits.append(False)        # the request below shows what the application does with it
         qs = ['q=1', '', 'x=\xff\xfe', 'a=%zz&b=+'][(len(path) + len(method)) % 4]      # incl. raw non-UTF-8 bytes (F13)
+        del RAISED[:]
         r = wsgi.get(app, path, method=method, query=qs, headers={'Accept': accept} if accept else None)
+        same_exc = None
+        if r.exc is not None and RAISED:
+            same_exc = r.exc is RAISED[-1]
         if r.exc is not None:
             o = ['escape', type(r.exc).__name__]
         elif r.header('X-Reroute') is not None:
@@ -237,8 +264,10 @@ def impl(case):
             allow = r.header('Allow')
             o = ['err', r.header('X-Src') or 'default', r.code,
                  sorted(set(x.strip() for x in allow.split(','))) if allow else []]
+        clen = r.header('Content-Length')
         obs['requests'].append({'bits': bits, 'result': o, 'sr_calls': r.sr_calls, 'status': r.status,
-                                'ctype': r.header('Content-Type')})
+                                'ctype': r.header('Content-Type'), 'same_exc': same_exc,
+                                'clen': clen, 'body_len': len(r.body) if r.exc is None else None})
     return obs
 
 
@@ -387,6 +416,12 @@ def oracle(prop, case, obs):
                 return ('%s: 405 Allow is %s, the path-matching routes admit %s' % (what, res[3], answer[3]), 'allow')
         elif res != answer:
             return ('%s: expected %s, got %s' % (what, answer, res), 'answer')
+        if res[0] == 'escape' and o.get('same_exc') is False:
+            return ('%s: the exception that reached the server is not the one the application raised (same class, another object)' % what,
+                    'escape-other-object')
+        if method.upper() != 'HEAD' and o.get('clen') is not None and o.get('body_len') is not None and res[0] in ('err', 'resp') \
+                and str(o['body_len']) != o['clen']:
+            return ('%s: Content-Length %s announced, %d body bytes sent' % (what, o['clen'], o['body_len']), 'content-length')
     return None
 
 
@@ -436,6 +471,16 @@ def small_tables():
             out.append({'lab': 'dispatch', 'app_mode': 'redirect', 'handler': 'default', 'build': None,
                         'routes': [{'pattern': pat, 'methods': None, 'beh': b, 'own_rerr': None, 'route_mode': None} for b in combo],
                         'requests': [['GET', '/a', None], ['POST', '/a/1', 'application/json'], ['GET', '/a', 'text/html']]})
+    # histories over a route that hands out ONE prepared soft error: first the error is the final answer (no later route
+    # admits the method), then a later route admits the request - the table is what it was, so must the answer be
+    for beh in ('ret403nb_shared', 'raise404nb_shared'):
+        for later in ('ok', 'ctx', 'ret503'):
+            for handler in ('default', 'contextual', 'other'):
+                out.append({'lab': 'dispatch', 'app_mode': 'redirect', 'handler': handler, 'build': None,
+                            'routes': [{'pattern': '/a', 'methods': None, 'beh': beh, 'own_rerr': None, 'route_mode': None},
+                                       {'pattern': '/a', 'methods': ['GET'], 'beh': later, 'own_rerr': None, 'route_mode': None}],
+                            'requests': [['GET', '/a', None], ['PUT', '/a', None], ['GET', '/a', None], ['PUT', '/a', 'text/html'],
+                                         ['GET', '/a', 'application/json']]})
     return out
 
 
